@@ -885,7 +885,7 @@ def gen_cases(ctx):
         else:
             n = rng.choice(SMALL_SIZES)
             head = gen_head(rng, body_len=n) if rng.random() < 0.4 else gen_head(rng, chunked=rng.random() < 0.1)
-        lines.append(mkline(op, head, **cfg))
+        lines.append(mkline(op, head, **fix_cfg(cfg, op)))
     # 2. PARAMS / vars block around the 65535 limit, 4-byte name lengths
     for pad in list(range(63800, 65300, 97 if q else 13)) + [65300 + 7 * i for i in range(0, 30 if q else 200)]:
         for op in ("fcgi", "uwsgi", "scgi"):
@@ -897,7 +897,7 @@ def gen_cases(ctx):
             if len(head) > 65535:
                 continue
             cfg["body"], cfg["sched"] = "h616263", "3"
-            lines.append(mkline(op, head, **cfg))
+            lines.append(mkline(op, head, **fix_cfg(cfg, op)))
     # 3. bodies around the record / write-limit boundaries, every framing backend, schedules, temp files
     sizes = list(EDGE_SIZES)
     if q:
@@ -924,7 +924,7 @@ def gen_cases(ctx):
                     cfg["sched"] = rand_sched(rng, n)
                 if rng.random() < 0.5:
                     cfg["fl"] |= F_TEMP
-                lines.append(mkline(op, head, **cfg))
+                lines.append(mkline(op, head, **fix_cfg(cfg, op)))
     return lines
 
 
@@ -941,6 +941,13 @@ def url_cases(ctx):
             for po in OPTS:
                 lines.append("target %d 0 %s" % (po, hx(p + qq)))
     return lines
+
+
+def fix_cfg(cfg, op):
+    """the filesystem path-info split (pinfo) only exists on the check-local route / for mod_cgi"""
+    if op == "proxy" or not (cfg["fl"] & F_CHECKLOCAL or op == "cgi"):
+        cfg["pinfo"] = 0
+    return cfg
 
 
 def add_parsed(exe, lines):
